@@ -406,10 +406,13 @@ func runC03(r *Result, d *drv.Driver, tier string, seed int64, replay string) {
 			for i, in := range accepted {
 				r.Stats["accepted-mutants-judged"]++
 				if !strings.HasPrefix(reps[i], "ok ") {
+					r.Stats["accepted-mutants-rejected-by-spec"]++
 					r.find(Finding{Kind: "violation", What: "Decode returned nil for bytes that do not denote a value of the target type (required items missing or out of place: nothing populated for them)",
 						Input: map[string]string{"op": "spec", "type": in.typ, "bytes": hx(in.data), "origin": in.origin}, Expect: reps[i], Actual: "ok"})
 				}
 			}
+		} else {
+			r.find(Finding{Kind: "disagreement", What: "driver failure while judging accepted inputs", Input: err.Error()})
 		}
 		r.mergeStats("gen:", map[string]int{"dyn:ptr": g.Stats["dyn:ptr"], "dyn:val": g.Stats["dyn:val"], "dyn:prim": g.Stats["dyn:prim"]})
 	}
